@@ -13,3 +13,34 @@ package websocket
 //@   requires c.commonFields != nil
 //@   safety index slice nil div assert panic
 //@   ensures limit: result == (c.commonFields.MessageLengthLimit > 0 && len > c.commonFields.MessageLengthLimit)  // prop C15
+
+// ---- frame header as a function of the cached bytes (RFC 6455 5.2); p is the cache pointer
+//@ pred plen7(p *[]byte) := (*p)[1] & 0x7F
+//@ pred opc(p *[]byte) := (*p)[0] & 0x0F
+//@ pred isCtl(op int) := op == 8 || op == 9 || op == 10
+//@ pred len16(p *[]byte) := (*p)[2]*256 + (*p)[3]
+//@ pred len64(p *[]byte) := ((((((((*p)[2]*256 + (*p)[3])*256 + (*p)[4])*256 + (*p)[5])*256 + (*p)[6])*256 + (*p)[7])*256 + (*p)[8])*256 + (*p)[9])
+//@ pred mlen(c *Conn) := ite(c.message == nil, 0, len(*c.message))
+//@ pred limit(c *Conn) := c.commonFields.MessageLengthLimit
+
+//@ func (*Conn).validFrame
+//@   props C13
+//@   safety index slice nil div assert panic make
+//@   ensures rfc: (result == nil) == (!(res1 && !c.enableCompression) && !res2 && !res3 && !(opcode > 2 && opcode < 8) && (fin || opcode == 0 || opcode == 1 || opcode == 2) && !(expectingFragments && (opcode == 1 || opcode == 2)))  // prop C13
+//@   assigns allocates
+
+//@ func maskXOR
+//@   trusted
+//@   requires len(key) >= 4
+//@   assigns elems(b)
+
+//@ func (*Conn).nextFrame
+//@   props C13 C15
+//@   safety index slice nil div assert panic make
+//@   requires c.commonFields != nil
+//@   ensures topbit: old(c.bytesCached != nil && len(*c.bytesCached) >= 10 && plen7(c.bytesCached) == 127 && (*c.bytesCached)[2] >= 128) ==> result6 != nil  // prop C13
+//@   ensures ctl16: old(c.bytesCached != nil && len(*c.bytesCached) >= 4 && plen7(c.bytesCached) == 126 && isCtl(opc(c.bytesCached)) && len16(c.bytesCached) > 125) ==> result6 != nil  // prop C13 C15
+//@   ensures ctl64: old(c.bytesCached != nil && len(*c.bytesCached) >= 10 && plen7(c.bytesCached) == 127 && isCtl(opc(c.bytesCached)) && len64(c.bytesCached) > 125) ==> result6 != nil  // prop C13 C15
+//@   ensures lim7: old(limit(c) > 0 && c.bytesCached != nil && len(*c.bytesCached) >= 2 && plen7(c.bytesCached) < 126 && mlen(c) + plen7(c.bytesCached) > limit(c)) ==> result6 == ErrMessageTooLarge  // prop C15
+//@   ensures lim16: old(limit(c) > 0 && c.bytesCached != nil && len(*c.bytesCached) >= 4 && plen7(c.bytesCached) == 126 && mlen(c) + len16(c.bytesCached) > limit(c)) ==> result6 == ErrMessageTooLarge  // prop C15
+//@   assigns elems(*c.bytesCached), allocates
